@@ -552,6 +552,13 @@ impl<'w> Gen<'w> {
                     if self.rng.chance(40) {
                         goods.native = self.native_set(2);
                     }
+                    if self.rng.chance(30) {
+                        let toks = self.h.sim.cw20_addrs().to_vec();
+                        if !toks.is_empty() {
+                            let t = self.rng.pick(&toks).clone();
+                            goods.cw20.push(cw20::Cw20CoinVerified { address: cosmwasm_std::Addr::unchecked(t), amount: Uint128::new(self.amount()) });
+                        }
+                    }
                 }
             }
         }
